@@ -119,6 +119,17 @@ func (b *backend) rawHas(d string) bool {
 type pool struct {
 	mans []*gen.Node
 	objs map[string]manifest.Manifest
+	// the same manifests as a caller holds them after fetching them by tag from some other layout:
+	// their descriptor is the donor's index entry (it carries the donor's tag name)
+	fetched map[string]manifest.Manifest
+}
+
+// obj returns the object to push: freshly parsed, or as fetched from a donor layout by tag.
+func (p *pool) obj(rng *rand.Rand, d string) (manifest.Manifest, string) {
+	if m, ok := p.fetched[d]; ok && rng.Intn(3) == 0 {
+		return m, "+fetched-by-tag-elsewhere"
+	}
+	return p.objs[d], ""
 }
 
 func mkPool(rng *rand.Rand) *pool {
@@ -142,6 +153,23 @@ func mkPool(rng *rand.Rand) *pool {
 			panic(err)
 		}
 		p.objs[n.Digest] = m
+	}
+	// donor layout
+	p.fetched = map[string]manifest.Manifest{}
+	if donor, err := os.MkdirTemp(os.Getenv("VERIF_BIN"), "c06donor"); err == nil {
+		defer os.RemoveAll(donor)
+		rc := rcx.New(nil, rcx.Opts{})
+		ctx := context.Background()
+		for i, n := range p.mans {
+			r := rcx.DirRef(donor, fmt.Sprintf("donor-%d", i))
+			if err := rc.ManifestPut(ctx, r, p.objs[n.Digest]); err != nil {
+				continue
+			}
+			if m, err := rc.ManifestGet(ctx, r); err == nil {
+				p.fetched[n.Digest] = m
+			}
+		}
+		_ = rc.Close(ctx, rcx.DirRef(donor, ""))
 	}
 	return p
 }
@@ -235,10 +263,11 @@ func isNotFound(err error) bool {
 type opRec struct {
 	Op, Tag, Digest string
 	Result          string
+	Obj             string // how the caller came by the pushed object ("" = freshly parsed)
 }
 
 func (o opRec) String() string {
-	return fmt.Sprintf("%s(%s %s) -> %s", o.Op, o.Tag, short(o.Digest), o.Result)
+	return fmt.Sprintf("%s%s(%s %s) -> %s", o.Op, o.Obj, o.Tag, short(o.Digest), o.Result)
 }
 
 func short(d string) string {
@@ -285,9 +314,10 @@ func sequential(i int) {
 		}
 		switch {
 		case op < 3: // push by tag
-			rec = opRec{Op: "putTag", Tag: t, Digest: man.Digest}
+			obj, how := p.obj(rng, man.Digest)
+			rec = opRec{Op: "putTag", Obj: how, Tag: t, Digest: man.Digest}
 			mutating = true
-			err := rc.ManifestPut(ctx, b.ref(t), p.objs[man.Digest])
+			err := rc.ManifestPut(ctx, b.ref(t), obj)
 			if err != nil {
 				rec.Result = "error: " + err.Error()
 				hist = append(hist, rec.String())
@@ -297,9 +327,10 @@ func sequential(i int) {
 			rec.Result = "ok"
 			md.T[t], md.M[man.Digest] = man.Digest, true
 		case op < 4: // push by digest
-			rec = opRec{Op: "putDigest", Digest: man.Digest}
+			obj, how := p.obj(rng, man.Digest)
+			rec = opRec{Op: "putDigest", Obj: how, Digest: man.Digest}
 			mutating = true
-			err := rc.ManifestPut(ctx, b.ref(man.Digest), p.objs[man.Digest])
+			err := rc.ManifestPut(ctx, b.ref(man.Digest), obj)
 			if err != nil {
 				rec.Result = "error: " + err.Error()
 				hist = append(hist, rec.String())
